@@ -29,7 +29,7 @@ CLAIMED = {
                 "residue i at index i*N; on the BFV, CKKS and BGV projections of extraction, field trace, division by N and "
                 "packing no step mixes coefficient-form and NTT-form data, the negacyclic shift and butterfly merge run in "
                 "coefficient form, the automorphism runs in the representation its scheme requires and results leave with "
-                "data matching their flag; the trace and packing loops advance. The negacyclic shift is applied to coefficient-form data under every flag assumption (R-REPSTATE domain). R-LWEPAIR(meta): every metadata field assemble_lwe copies from an LWE ciphertext (parms_id, scale, correction factor) is compared across all inputs of pack_lwe_ciphertexts in a refusing check. R-LWEPAIR(shift): the butterfly's shift amount is (ring degree) >> (layer + 1), its base resolving to poly_modulus_degree and not to a count of inputs.",
+                "data matching their flag; the trace and packing loops advance. The negacyclic shift is applied to coefficient-form data under every flag assumption (R-REPSTATE domain). R-LWEPAIR(meta): every metadata field assemble_lwe copies from an LWE ciphertext (parms_id, scale, correction factor) is compared across all inputs of pack_lwe_ciphertexts in a refusing check. R-LWEPAIR(shift): the butterfly's shift amount is (ring degree) >> (layer + 1), its base resolving to poly_modulus_degree and not to a count of inputs. R-LWEPAIR(element): the Galois element of butterfly layer j is (1 << (j + 1)) + 1, a shift of the literal 1, not a quantity derived from the ring degree.",
         "note": _TB + "Not decided: where coefficients land as a function of the runtime index, count and trace parameter "
                 "(the stride, the factor N/2^l, the zeros), coverage of the automorphism key set, the CKKS error bound. The "
                 "butterfly merge of pack_lwe_ciphertexts works on raw-pointer views of one vector's elements, which the "
@@ -92,7 +92,7 @@ CLAIMED = {
                 "tier guard depends (flow-sensitively) only on inputs the guard depends on; no wrapping arithmetic on an "
                 "unbounded signed/floating input feeds a modular reduction; every entry point refuses, on every "
                 "normally-returning path, through a sign test of the scale and through branches computed from the "
-                "scale and from the value(s) against the modulus size. Also: the admissibility bit count carries the sign-bit allowance its formula needs and every float-to-integer cast fits its type under the branch guard. R-OUTCOVER: a caller-supplied plaintext that is resized (old contents kept) is completely defined by the call: indexed stores cover it densely (polynomial identities between strides, loop bounds and the resize length) or follow a zero fill; a loop bounded by the length of an input slice without a fill is refused. R-CONTRA(wrapcast): no wrapped unsigned difference of multi-precision words is reinterpreted as a signed integer of the same width.",
+                "scale and from the value(s) against the modulus size. Also: the admissibility bit count carries the sign-bit allowance its formula needs and every float-to-integer cast fits its type under the branch guard. R-OUTCOVER: a caller-supplied plaintext that is resized (old contents kept) is completely defined by the call: indexed stores cover it densely (polynomial identities between strides, loop bounds and the resize length) or follow a zero fill; a loop bounded by the length of an input slice without a fill is refused. R-CONTRA(wrapcast): no wrapped unsigned difference of multi-precision words is reinterpreted as a signed integer of the same width. R-ENCADMIT(modulus): inside a loop over the RNS components every modular primitive is given the component's own prime (the modulus list indexed by the component variable, never by a literal).",
         "note": _TB + "Not decided: rounding, double-precision error of the embedding transform, FFT correctness, "
                 "slot order, consistency of RNS components as values.",
         "technique": "flow-sensitive dependency comparison of guards and casts + guard dominance with scalar operands + bit-count formula / cast-width table",
@@ -159,7 +159,7 @@ CLAIMED = {
                 "applies a transform / RNS routine outside its domain, or returns lazy or wrongly flagged data; in the key-switch "
                 "back end every stage touching an RNS slot of the scratch product uses the same prime index at every "
                 "level (symbolic unification of slot and index expressions); in the add/sub back ends every transfer of the "
-                "second operand into the result is selected by the subtract flag, with different routines per mode. Also: the pairwise product tree of multiply_many stays in bounds for odd counts and keeps its intermediate products. R-TENSOR: in the ciphertext-by-ciphertext products the slice indices of every dyadic product add up to the output component and the largest index into each operand is min(i, that operand's own size - 1) (symbolic maxima over the summation loop). R-FAMILY(negacyclic): base-level monomial multiplications delegate to negacyclic_shift with their exponent, or rotate right by it and negate the wrapped prefix.",
+                "second operand into the result is selected by the subtract flag, with different routines per mode. Also: the pairwise product tree of multiply_many stays in bounds for odd counts and keeps its intermediate products. R-TENSOR: in the ciphertext-by-ciphertext products the slice indices of every dyadic product add up to the output component and the largest index into each operand is min(i, that operand's own size - 1) (symbolic maxima over the summation loop). R-FAMILY(negacyclic): base-level monomial multiplications delegate to negacyclic_shift with their exponent, or rotate right by it and negate the wrapped prefix. R-TENSOR(loops): every `for i in 0..X` that reads `Y.poly(i)` of a ciphertext operand has X resolving to Y.size().",
         "note": _TB + "Not decided: exactness of the BEHZ steps, noise growth, the arithmetic of "
                 "balance_correction_factors, equality with the ring product.",
         "technique": "symbolic buffer dimensions at call sites + operation-class delegation + symbolic metadata + representation typestate + slot/prime index unification + mode-flag control dependence + counter-loop bound / dead-store contradiction",
@@ -205,7 +205,7 @@ CLAIMED = {
         "text": "Decides the refusal clause for invalid / seed-compressed operands: for all public operations of "
                 "Evaluator, Encryptor, Decryptor and the decoders, every Ciphertext/Plaintext operand passes a "
                 "validity guard on every path before its first write or first arithmetic use (pre-effect dominance, "
-                "interprocedural value-identity tracking through clones and the in-place/destination/returning forms). Also: the validity predicates scan every residue (through file-local helpers) and refuse a BGV correction factor of 0 or >= t. R-GUARD(keys): the routine that multiplies key-switching key material into a ciphertext validates the data of every key of the selected vector in a refusing branch.",
+                "interprocedural value-identity tracking through clones and the in-place/destination/returning forms). Also: the validity predicates scan every residue (through file-local helpers) and refuse a BGV correction factor of 0 or >= t. R-GUARD(keys): the routine that multiplies key-switching key material into a ciphertext validates the data of every key of the selected vector in a refusing branch. R-METAFLOW(resize): a resize of an output ciphertext / plaintext is not guarded by a one-sided comparison of its current size.",
         "note": _TB + "Not decided: bit-identity of the three API forms as values; validity of returned objects as a "
                 "value property. Out-parameters are recognised by the public naming contract (destination/result).",
         "technique": "guard-dominance dataflow over typed HIR with callee summaries (refusing branches, value identity) + bound-form check",
